@@ -76,7 +76,7 @@ def verify_function(reg: Registry, c: Contract) -> FnReport:
     n_loops = extract.count_loops(fs.node)
     ex = Exec(reg, c, fs)
     try:
-        if c.loops and max(c.loops) >= n_loops:
+        if c.loops and max(c.loops) >= n_loops and not all(l.iter_src is not None for l in c.loops.values()):
             raise Unsupported('contract names loop %d but the source has %d loops' % (max(c.loops), n_loops))
         st = entry_state(ex, c, fs.node)
         outs = ex.exec_block(fs.node.body, st)
